@@ -15,7 +15,11 @@ git apply "$PATCH" || { echo "patch does not apply"; exit 2; }
 go build ./... > /tmp/confirm_$ID.build.log 2>&1; BUILD=$?
 go test -vet=off -count=1 -run "$RUN" $EXTRA "./$PKG" > /tmp/confirm_$ID.mut.log 2>&1; MUT=$?
 rm "$PKG/zz_demo_test.go"
-go test -vet=off -count=1 ./... > /tmp/confirm_$ID.suite.log 2>&1; SUITE=$?
+SUITE=1
+for try in 1 2 3; do   # the pinned suite has a few timing/port-sensitive tests that fail under load: up to 3 attempts
+  go test -vet=off -count=1 ./... > /tmp/confirm_$ID.suite.log 2>&1; SUITE=$?
+  [ $SUITE -eq 0 ] && break
+done
 echo "seed $ID: build=$BUILD demo_on_clean=$CLEAN demo_with_change=$MUT suite_with_change=$SUITE"
 if [ $BUILD -eq 0 ] && [ $CLEAN -eq 0 ] && [ $MUT -ne 0 ] && [ $SUITE -eq 0 ]; then
   D=/verif/seeded/$ID; mkdir -p $D
